@@ -33,6 +33,7 @@ const variant = gnet.VerifRegistryVariant
 
 type state struct {
 	r           *gnet.VerifRegistry
+	fullAudit   bool        // the next audit looks up every descriptor ever used
 	ref         map[int]int // fd -> identity of the live connection (the spec)
 	fdOf        map[int]int // identity -> fd, every connection object ever created
 	ever        []int       // every fd ever used, in order of first use
@@ -86,7 +87,7 @@ func (s *state) audit() {
 			return
 		}
 		step := 1
-		if len(s.ever) > 3000 {
+		if len(s.ever) > 3000 && !s.fullAudit {
 			step = len(s.ever)/1500 + 1
 		}
 		for i := 0; i < len(s.ever); i += step {
@@ -453,6 +454,10 @@ func (g *gen) aroundBoundary(b int) {
 // probeEnds looks up the oldest and the newest live connections (the entries next to a row boundary of the
 // matrix when the population is near a multiple of the column width): each lookup is judged by the reference map
 func (g *gen) probeEnds() {
+	// every descriptor ever used is looked up (not a sample): a clobbered entry may be anybody's
+	g.s.fullAudit = true
+	g.s.audit()
+	g.s.fullAudit = false
 	ids := g.liveIDs()
 	for k := 0; k < 8 && k < len(ids); k++ {
 		g.s.exec(tr.L("get", tr.I(g.s.fdOf[ids[len(ids)-1-k]])))
